@@ -274,6 +274,7 @@ class TreeRun:
         self.step = -1
         self.stopped = False
         self.removed: dict = {}  # uid -> (class, entry point, absence-check mode) for C05 clauses
+        self.removed_via: dict = {}  # (workspace tag, uid) -> entry point (a cross copy keeps the uid: one entry per file)
         self.removed_names: dict = {}
         self.stats = {"effective": 0, "kinds": set(), "reopens": 0, "onfile_mutations": 0,
                       "op_errors": 0, "removals_rich": 0, "copies": 0, "cross_copies": 0, "moves": 0}
@@ -436,7 +437,7 @@ class TreeRun:
                     cond = "final" if final else "mid"
                     hit = [g for g, (_c, via, _m) in self.removed.items() if g in detail and g not in wd.nodes]
                     if hit:
-                        cond += ":node-removed-via-" + self.removed[hit[0]][1]
+                        cond += ":node-removed-via-" + self.removed_via.get((wd.tag, hit[0]), self.removed[hit[0]][1])
                     self.fail("C02", clause, "close", "file", cond, detail)
                     break
             if "C05" in self.props and wd is self.worlds[0] and self.removed:
@@ -1375,6 +1376,7 @@ class TreeRun:
             wd.kind = {u: k for u, k in wd.kind.items() if u in wd.nodes}
             for g in gone:
                 self.removed[g] = (cls, "ws", "no-listing")
+                self.removed_via[(wd.tag, g)] = "ws"
             self.held = [h for h in self.held if str(h.uid) not in gone]
             self.touch()
             return True
@@ -1443,6 +1445,7 @@ class TreeRun:
                 getattr(wd.ws, listing)
         for g in gone:
             self.removed[g] = (cls, op["via"], mode)
+            self.removed_via[(wd.tag, g)] = op["via"]
         # "once the caller has dropped its own references": the harness drops what it held
         self.held = [h for h in self.held if str(h.uid) not in gone]
         if rich:
@@ -1483,6 +1486,7 @@ class TreeRun:
             self.removed_names.update(names)
             for g in wd.drop(c):
                 self.removed[g] = (cls, "parent", "listing-first")
+                self.removed_via[(wd.tag, g)] = "parent"
                 gone.append(g)
         self.held = [h for h in self.held if str(h.uid) not in gone]
         self.res.label("remove_many:" + ("mixed-kinds" if len(kinds) > 1 else "one-kind"))
